@@ -52,7 +52,7 @@ NOTES = {
     'C08-f': 'NOT caught, deliberately: needs a mux error raised inside the last tee_map branch that travels THROUGH the tee_map to a handler placed after it. C13 specifies handlers placed directly after the failing operator, C08 says nothing about errors (the unchanged tee_map forwards an upstream error once per branch)',
     'C11-i': 'needs a time-out of zero (a clean-up replaced `is not None` by a truth test): zero time-outs are generated now (the first item of a key then expires the window it has just opened: empty leading windows are typed accordingly)',
     'C05-i': 'NOT caught, deliberately: roll no longer restarts its stride grid after a *handled* key error. It needs a mux error that travels through roll to handlers that are not directly behind the failing operator (C13 specifies handlers placed directly after; C05 says nothing about errors); whether the grid restarts after such an error is not specified',
-    'C19-i': 'caught by C16 (the compression property: several compressors alive at once, chunks interleaved by the seeded schedule); C19 writes one file at a time',
+    'C19-i': 'as built caught by C16 only (several compressors alive at once, chunks interleaved by the seeded schedule); C19 now also writes two files at the same time from interleaved hot sources (one source split into two files) and reads both back',
     'C18-h': 'needs the csv schema given as a typing.NamedTuple class with default values: such schemas (with and without defaults) are generated now',
     'C06-h': 'needs predicate values that are equal only to themselves (plain objects shared by consecutive items): added as a predicate family',
     'C14-h': 'needs a state data type that is a subclass of float (numpy.float64, a user class): C14 declares such types now, scan runs with a numpy.float64 seed in C01/C02/C09, and numpy scalars keep their type in the canonical form',
